@@ -470,6 +470,10 @@ fn run_scenario(sc: &Value) -> Value {
             "remove_user_dir" => {
                 let _ = std::fs::remove_dir_all(&env.user_dir);
             }
+            "create_user_dir" => {
+                let _ = std::fs::remove_file(&env.user_dir);
+                let _ = std::fs::create_dir_all(&env.user_dir);
+            }
             "chmod_user_dir" => {
                 use std::os::unix::fs::PermissionsExt;
                 let mode = st["mode"].as_u64().unwrap_or(0o755) as u32;
